@@ -96,8 +96,12 @@ def run_property(prop, a, seed, t0):
     undecided = [u for u in undecided if not (len(u) > 2 and u[2] in known_keys)]
     can_checked = sum(r.get("canaries", {}).get("checked", 0) for r in results)
     can_vacuous = sum(r.get("canaries", {}).get("vacuous", 0) for r in results)
-    if can_vacuous:
-        undecided.append(("canary", f"{can_vacuous} sampled discharged VCs hold only because their path condition is unsatisfiable (vacuity)"))
+    # a single infeasible path that the bounded pruning kept is harmless (its obligations hold vacuously *on that path*);
+    # vacuity of a contract shows as *every* sampled VC of a unit being vacuous
+    for r in results:
+        cn = r.get("canaries", {})
+        if cn.get("checked", 0) >= 2 and cn.get("vacuous", 0) == cn.get("checked", 0):
+            undecided.append((r["unit"], f"all {cn['checked']} sampled discharged VCs of this unit hold only because their path condition is unsatisfiable (vacuous contract?)"))
     for key, vcs in covers.items():
         if "/cover:raises-" in key[1]:
             continue  # an exceptional exit that is never taken is not vacuity
